@@ -48,9 +48,9 @@ func strs(v any) []string {
 	return out
 }
 
-func (s *Step) op() string        { return str(s.Last["op"]) }
-func (s *Step) res() string       { return str(s.Last["res"]) }
-func (s *Step) app() []string     { return strs(s.Last["app"]) }
+func (s *Step) op() string    { return str(s.Last["op"]) }
+func (s *Step) res() string   { return str(s.Last["res"]) }
+func (s *Step) app() []string { return strs(s.Last["app"]) }
 func (s *Step) args() map[string]any {
 	m, _ := s.Last["a"].(map[string]any)
 	return m
@@ -106,8 +106,8 @@ type Runner struct {
 	Prop  string // the property under check ("" = stop at the first divergence whoever owns it)
 	blind bool   // a divergence owned by another property happened: keep executing, compare nothing against the model any more
 	Env   *Env
-	Idx int // behaviour index
-	V   []Violation
+	Idx   int // behaviour index
+	V     []Violation
 	// statistics
 	StepsRun, TxCommitted, TxAborted, OpsOk, OpsFailed, EventsChecked int
 	Deep                                                              bool // API-level read checks at commit points
@@ -224,12 +224,30 @@ func realList(tok *project.Tokens, v any, salt int) []string {
 	return out
 }
 
+func unstorableTags() map[string]interface{} {
+	// (one element that is refused among many that are fine: wherever the iteration over the map meets it, the error has to stick)
+	m := map[string]interface{}{"nested": map[string]interface{}{"x": "y"}, "text": "b"}
+	for i := 0; i < 300; i++ {
+		m[fmt.Sprintf("nil%d", i)] = nil
+	}
+	return m
+}
+
 // exec performs one store call; ret is the call's return value rendered like the model's `ret`.
 func (r *Runner) exec(ctx boltz.MutateContext, s *Step, salt int) (ret string, err error) {
 	env, tok, a := r.Env, r.Env.Tok, s.args()
 	S := env.S
 	tx := ctx.Tx()
-	if a["veto"] == true {
+	// a veto comes from a constraint of the application, or (every third create) from the storage layer's own validation of what the
+	// entity carries: a tags map with an element that cannot be stored -- among elements that can, nil valued ones included
+	tagVeto := a["veto"] == true && s.op() == "create" && salt%3 == 1
+	if tagVeto {
+		defer func() {
+			if err != nil {
+				err = fmt.Errorf("%w (%v)", ErrVeto, err)
+			}
+		}()
+	} else if a["veto"] == true {
 		env.mu.Lock()
 		env.armed = true
 		env.mu.Unlock()
@@ -264,6 +282,9 @@ func (r *Runner) exec(ctx boltz.MutateContext, s *Step, salt int) (ret string, e
 		}
 		if str(a["via"]) == "staff" {
 			e := r.staff(a)
+			if tagVeto {
+				e.Tags = unstorableTags()
+			}
 			if s.op() == "create" {
 				err = S.Staff.Create(ctx, e)
 			} else {
@@ -275,6 +296,9 @@ func (r *Runner) exec(ctx boltz.MutateContext, s *Step, salt int) (ret string, e
 			}
 		} else {
 			e := r.person(a)
+			if tagVeto {
+				e.Tags = unstorableTags()
+			}
 			if s.op() == "create" {
 				err = S.People.Create(ctx, e)
 			} else {
